@@ -422,8 +422,8 @@ def run_history(ctx, hid, crash):
 def run(ctx):
     if not selftest_or_inconclusive(ctx):
         return
-    n_crash = ctx.size(180, 8000)
-    for hid in ctx.cases(1500, 100000):
+    n_crash = ctx.size(250, 8000)
+    for hid in ctx.cases(2000, 100000):
         run_history(ctx, hid, crash=hid < n_crash)
 
 
